@@ -47,6 +47,7 @@ def cases(tier, seed):
         recs.append((['er', n, float(rs.choice([.1, .2, .3, .5, .7])), d, int(rs.randint(1 << 30))], d))
     for i, (g, d) in enumerate(recs):
         out.append({'g': g, 'directed': d, 'ws': seed * 100 + i})
+    out.append({'kind': 'degenerate', 'g': ['named', 'path', 2], 'directed': False, 'ws': 0, 'schemes': []})
     return out
 
 
@@ -95,6 +96,10 @@ def check_peel(A, k, mode, core, order, level):
 
 
 def run(case, bct, REC):
+    if case.get('kind') == 'degenerate':
+        from .common import degenerate_sizes
+        REC.tag(PROP, 'exec')
+        return degenerate_sizes(REC, PROP, bct, [('kcore_bu', (1,)), ('kcore_bd', (1,)), ('score_wu', (1.0,)), ('kcoreness_centrality_bu', ()), ('kcoreness_centrality_bd', ())])
     A = G.build(case['g'])
     directed = case['directed']
     n = len(A)
